@@ -281,6 +281,131 @@ fn run(which: &str, tier: Tier, shard: usize, n: usize) -> Report {
 	rep
 }
 
+struct NoStatus;
+impl grin_chain::types::TxHashsetWriteStatus for NoStatus {
+	fn on_setup(&self, _: Option<u64>, _: Option<u64>, _: Option<u64>, _: Option<u64>) {}
+	fn on_validation_kernels(&self, _: u64, _: u64) {}
+	fn on_validation_rproofs(&self, _: u64, _: u64) {}
+	fn on_save(&self) {}
+	fn on_done(&self) {}
+}
+
+/// A node that did not process the early blocks itself: it synced the headers, received the state at the archive
+/// header (height 10 of a 32-block chain) as a txhashset archive and went on from there. At every head height
+/// 10..13 every coinbase of the last four blocks is spent by a candidate next block (one below / at / above
+/// creation height + maturity) and by a transaction offered to the pool-facing maturity check; the verdicts must be
+/// the rule model's - the same as on a node that processed every block from genesis.
+fn state_sync(_tier: Tier) -> Report {
+	uni::init_thread();
+	let mut rep = Report::new();
+	let sc = uni::Scratch::new("c13s");
+	let scr = &sc;
+	crate::chainx::guarded("state-sync", &mut rep, move |rep| {
+		let mut tb = TreeBuilder::new(scr, 33, false);
+		let kc = uni::keychain(33);
+		let mut prev = None;
+		let mut main = vec![];
+		for h in 1..=32u32 {
+			prev = Some(tb.add(&format!("m{}", h), prev, &BlockSpec::empty(h)));
+			main.push(prev.unwrap());
+		}
+		// candidate blocks: height h on m(h-1), spending the coinbase created at height c
+		let mut cands: Vec<(usize, u32, u32, grin_core::core::Transaction)> = vec![];
+		let mut id = 100u64;
+		for h in 11..=14u32 {
+			for c in (h - 4)..h {
+				id += 1;
+				let tx = uni::spend_coinbase(&kc, c, REWARD, &[(5000 + h * 10 + c, REWARD - M)], id);
+				let spec = BlockSpec::with(600 + h * 10 + c, vec![tx.clone()]);
+				let name = format!("s:cb{}-at-{}", c, h);
+				let parent = Some(main[h as usize - 2]);
+				let i = if h >= c + MATURITY as u32 { tb.add(&name, parent, &spec) } else { tb.add_invalid(&name, parent, &spec) };
+				cands.push((i, h, c, tx));
+			}
+		}
+		let archive = tb.chain.txhashset_archive_header().expect("archive header");
+		assert_eq!(archive.height, 10, "archive header of a 32-block chain");
+		let zip_bytes = {
+			use std::io::Read;
+			let (_, _, mut f) = tb.chain.txhashset_read(archive.hash()).expect("txhashset_read");
+			let mut v = vec![];
+			f.read_to_end(&mut v).expect("read zip");
+			v
+		};
+		let headers: Vec<grin_core::core::BlockHeader> = main.iter().map(|i| tb.tree.blocks[*i].block.header.clone()).collect();
+		let tree = tb.tree.clone();
+		// the state-synced node at the archive header, and the node that processed everything
+		let synced0 = scr.fresh("synced");
+		{
+			let c = uni::open_chain(&synced0, &tree.gen);
+			let hh = c.header_head().expect("header_head");
+			c.sync_block_headers(&headers, hh, Options::NONE).expect("sync headers");
+			let zp = scr.fresh("zip");
+			std::fs::write(&zp, &zip_bytes).expect("write zip");
+			let f = std::fs::File::open(&zp).expect("open zip");
+			match c.txhashset_write(archive.hash(), f, &NoStatus) {
+				Ok(false) => {}
+				other => panic!("builder: txhashset_write of the honest archive = {:?}", other.map_err(|e| format!("{:?}", e))),
+			}
+			let _ = std::fs::remove_file(&zp);
+			assert_eq!(c.head().expect("head").height, 10);
+		}
+		let full0 = scr.fresh("full");
+		{
+			let c = uni::open_chain(&full0, &tree.gen);
+			for i in main.iter().take(10) {
+				c.process_block(tree.blocks[*i].block.clone(), Options::NONE).expect("full node");
+			}
+		}
+		use grin_core::core::hash::Hashed;
+		for (kind, base) in [("state-synced", &synced0), ("from-genesis", &full0)] {
+			let cur = scr.fresh("cur");
+			uni::copy_dir(base, &cur);
+			for head in 10..=13u32 {
+				if head > 10 {
+					let c = uni::open_chain(&cur, &tree.gen);
+					c.process_block(tree.blocks[main[head as usize - 1]].block.clone(), Options::NONE).unwrap_or_else(|e| panic!("builder: {} node refused main block {}: {:?}", kind, head, e));
+				}
+				for (i, h, c, tx) in cands.iter().filter(|x| x.1 == head + 1) {
+					let d = scr.fresh("p");
+					uni::copy_dir(&cur, &d);
+					let chain = uni::open_chain(&d, &tree.gen);
+					let want = tree.valid(*i).is_ok();
+					let delta = *h as i64 - (*c as i64 + MATURITY as i64);
+					// the pool-facing check: is a transaction spending this coinbase fit for the NEXT block?
+					let pool = chain.verify_coinbase_maturity(&tx.inputs());
+					let got = chain.process_block(tree.blocks[*i].block.clone(), Options::NONE);
+					rep.evaluations += 2;
+					rep.transitions += 1;
+					rep.distinct += 1;
+					rep.outcome(&format!("{}:threshold{:+}:block-{}:pool-{}", kind, delta, if got.is_ok() { "accepted" } else { "refused" }, if pool.is_ok() { "admits" } else { "refuses" }));
+					let case = json!({"part": "state-sync", "node": kind, "head": head, "candidate": tree.blocks[*i].name});
+					if got.is_ok() != want {
+						rep.violation(
+							if want { format!("state-sync:{}:valid-block-rejected", kind) } else { format!("state-sync:{}:immature-coinbase-spend-accepted", kind) },
+							format!("{} node with head {}: process_block({}) = {} but the rule model says {} (coinbase of height {} + maturity {} vs block height {})", kind, head, tree.blocks[*i].name, match &got { Ok(_) => "Ok".to_string(), Err(e) => format!("{:?}", e) }, if want { "accept" } else { "reject" }, c, MATURITY, h),
+							case.clone(),
+						);
+					}
+					if pool.is_ok() != want {
+						rep.violation(
+							if want { format!("state-sync:{}:pool-check-refuses-mature", kind) } else { format!("state-sync:{}:pool-check-admits-immature", kind) },
+							format!("{} node with head {}: verify_coinbase_maturity(spend of the coinbase of height {}) = {:?} but for the next block {} the rule model says {}", kind, head, c, pool.as_ref().map_err(|e| format!("{:?}", e)), h, if want { "mature" } else { "immature" }),
+							case,
+						);
+					}
+					drop(chain);
+					let _ = std::fs::remove_dir_all(&d);
+				}
+			}
+			let _ = std::fs::remove_dir_all(&cur);
+		}
+		rep.states += 8;
+		rep.sample(json!({"part": "state-sync", "archive_height": archive.height, "archive_hash": format!("{}", archive.hash()), "candidates": cands.iter().map(|c| tree.blocks[c.0].name.clone()).collect::<Vec<_>>()}));
+	});
+	rep
+}
+
 impl Engine for C13 {
 	fn id(&self) -> &'static str {
 		"C13"
@@ -297,7 +422,7 @@ impl Engine for C13 {
 		}
 	}
 	fn parts(&self, _tier: Tier) -> Vec<(&'static str, usize)> {
-		vec![("maturity-locks", 8), ("maturity-locks-v5", 8), ("maturity-locks-v5-hdr", 8), ("nrd", 8), ("pool", 1)]
+		vec![("maturity-locks", 8), ("maturity-locks-v5", 8), ("maturity-locks-v5-hdr", 8), ("nrd", 8), ("pool", 1), ("state-sync", 1)]
 	}
 	fn run_part(&self, part: &str, tier: Tier, shard: usize, n: usize) -> Report {
 		if part == "pool" {
@@ -305,11 +430,21 @@ impl Engine for C13 {
 			// children of this one)
 			return crate::c14::run_part("c13-pool", tier);
 		}
+		if part == "state-sync" {
+			return state_sync(tier);
+		}
 		run(part, tier, shard, n)
 	}
 	fn replay(&self, case: &Value) -> Result<String, String> {
 		if case.get("part").and_then(|p| p.as_str()) == Some("c13-pool") {
 			return crate::Engine::replay(&crate::c14::C14, case);
+		}
+		if case.get("part").and_then(|p| p.as_str()) == Some("state-sync") {
+			let r = state_sync(Tier::Quick);
+			return match r.violations.iter().find(|v| &v.case == case).or(r.violations.first()) {
+				Some(v) => Err(format!("{}: {}", v.key, v.what)),
+				None => Ok(format!("state-sync part holds: {:?}", r.outcomes)),
+			};
 		}
 		uni::init_thread();
 		let sc = uni::Scratch::new("replay");
